@@ -11,6 +11,6 @@ CONSTANTS
   PageSizes <- PS1
   MaxResp = 3
   MaxCalls = 4
-  Families = {"single"}
-  Level = "export"
+  Families = {"range"}
+  Level = "lite"
 INVARIANT Props
